@@ -268,7 +268,19 @@ class Conn:
         return bytes(self.writer.out[self.consumed:])
 
     def feed(self, data: bytes) -> None:
-        self.reader.feed_data(data)
+        rng = getattr(self.world, 'segment_rng', None)
+        if rng is None or len(data) < 2:
+            self.reader.feed_data(data)
+            return
+        # the bytes arrive in several segments (TCP does not keep a command, or a literal, in
+        # one piece): the server runs on what has arrived before the next piece is delivered
+        cuts = sorted({rng.randrange(1, len(data)) for _ in range(rng.choice([1, 1, 2, 3]))})
+        pos = 0
+        for c in cuts + [len(data)]:
+            self.reader.feed_data(data[pos:c])
+            pos = c
+            if c < len(data):
+                self.world.loop.run_owner(self.name)
 
     def eof(self) -> None:
         self.reader.feed_eof()
